@@ -29,6 +29,7 @@ func init() {
 		Sels: []Sel{
 			{Run: "Gcsync", Rules: []string{"R12", "R16"}, Exclude: []string{"writeWaiting", "release-called"}},
 			{Run: "R1", Scope: []string{"csync", "broadcast"}, Rules: []string{"R1a", "R1b", "R1d", "R11a"}},
+			{Run: "R2", Scope: []string{"csync", "broadcast"}, Rules: []string{"R2d"}, Prefixes: []string{"csync."}},
 		},
 		Floors:      map[string]int{"R12": 24, "R16": 5, "R1a": 5},
 		Explanation: "csync: every grant write (locked/writing = true, nreaders++) is implied, inside its own critical section, by the availability condition the property states; every un-grant write happens only under 'this call's status word was 1' / 'first call of the release function' and in the mode of the grant; Lock/TryLock report success only with status 1 and after a grant write on the same path, and report failure only on paths without a grant; release functions and MutexLocker.Unlock start with an atomic test-and-set; the guarded fields are touched only under the lock (R1a)." + structural,
@@ -42,9 +43,10 @@ func init() {
 			{Run: "R2", Scope: []string{"csync", "broadcast"}, Rules: []string{"R2a", "R2b", "R2c", "R2d"}, Prefixes: []string{"csync."}},
 			{Run: "Gcsync", Rules: []string{"R12"}, Contains: []string{"writeWaiting", "grant(nreaders++)", "return-failure", "release-called", "ungrant("}},
 			{Run: "R17", Scope: []string{"csync"}, Rules: []string{"R17", "R2f"}},
+			{Run: "R1", Scope: []string{"csync", "broadcast"}, Rules: []string{"R1a", "R11a"}},
 		},
 		Floors:      map[string]int{"R2a": 2, "R2b": 10, "R2c": 2, "R12": 9},
-		Explanation: "No lost wake-up in Mutex.Lock / RWMutex.Lock: the decision to wait and the wait channel come from one critical section (R2a); every path through a section that can turn a blocked waiter's predicate (Mutex: locked; reader: writing || writeWaiting != 0; writer: nreaders != 0 || writing) into 'grantable' calls broadcast (R2b, truth-table evaluation); no re-sampling without a consumed event (R2c). Writer preference: every read grant is guarded by writeWaiting == 0. No trace: the ctx.Done() arm runs the release closure, returns context.Canceled only there, and writeWaiting++/-- balance on every returning path." + structural,
+		Explanation: "No lost wake-up in Mutex.Lock / RWMutex.Lock: the decision to wait and the wait channel come from one critical section (R2a); every path through a section that can turn a blocked waiter's predicate (Mutex: locked; reader: writing || writeWaiting != 0; writer: nreaders != 0 || writing) into 'grantable' calls broadcast (R2b, truth-table evaluation); no re-sampling without a consumed event (R2c). Writer preference: every read grant is guarded by writeWaiting == 0. No trace: the ctx.Done() arm runs the release closure, returns context.Canceled only there, and writeWaiting++/-- balance on every returning path. The static form of concurrent use: the fields the mechanism uses are accessed only under its lock, and every lock acquired is released on every path (R1a, R11)." + structural,
 		NotDecided:  "which waiter wins; that woken goroutines are scheduled; starvation freedom.",
 		Assumptions: []string{A1, A2, A3},
 		Technique:   "waiter-discipline analysis (sample-and-subscribe, enabling-write-broadcasts truth tables, wake evidence) + guarded effects",
@@ -71,9 +73,10 @@ func init() {
 			{Run: "Groutine", Rules: []string{"R12"}, Contains: []string{"status-writes"}},
 			{Run: "Groutine", Rules: []string{"R5b"}},
 			{Run: "Groutine", Rules: []string{"R4"}},
+			{Run: "R1", Scope: []string{"routine"}, Rules: []string{"R1a", "R11"}, Prefixes: []string{"routine.runningRoutine.", "routine.RoutineContainer.", "routine.(", "all/"}},
 		},
 		Floors:      map[string]int{"R3a": 2, "R3b": 4, "R3c": 1, "R3d": 2, "R4": 2},
-		Explanation: "Exit-channel chain of routine: execute receives from the predecessor's channel before it calls the user function and before it closes its own channel on every path (R3a); start passes a fresh channel, stored in the record in the same section (R3c); every start site forwards a chain value read before it is cleared (R3b); SetRoutine(nil)/no-context paths keep the detached routine's channel for the next start (R3d); predecessors are cancelled before they are superseded (R4); an exiting instance writes the record's status and chain field only while it is the current instance (a superseded instance must not wipe its successor's exit channel), and the retry timer restarts only the record that is still registered (R12 status-writes, R5b)." + structural,
+		Explanation: "Exit-channel chain of routine: execute receives from the predecessor's channel before it calls the user function and before it closes its own channel on every path (R3a); start passes a fresh channel, stored in the record in the same section (R3c); every start site forwards a chain value read before it is cleared (R3b); SetRoutine(nil)/no-context paths keep the detached routine's channel for the next start (R3d); predecessors are cancelled before they are superseded (R4); an exiting instance writes the record's status and chain field only while it is the current instance (a superseded instance must not wipe its successor's exit channel), and the retry timer restarts only the record that is still registered (R12 status-writes, R5b). The static form of concurrent use: the fields the mechanism uses are accessed only under its lock, and every lock acquired is released on every path (R1a, R11)." + structural,
 		NotDecided:  "that user functions honour cancellation; exit latency.",
 		Assumptions: []string{A1, A3, A4},
 		Technique:   "exit-channel-chain analysis (must-precede on paths, provenance dataflow of wait channels)",
@@ -81,7 +84,7 @@ func init() {
 	add(&Property{
 		ID: "C05", Title: "routine: superseded instances are cancelled; survivor has latest context+state",
 		Sels: []Sel{
-			{Run: "Groutine", Rules: []string{"R4", "R12"}, Contains: []string{"cancel", "derived-context", "current-context", "status-reset", "go-execute", "store-state-before-rebuild", "stored-state-reaches-routine", "closure-captures-copy"}},
+			{Run: "Groutine", Rules: []string{"R4", "R12"}, Contains: []string{"cancel", "derived-context", "current-context", "status-reset", "go-execute", "store-state-before-rebuild", "stored-state-reaches-routine", "closure-captures-copy", "status-writes"}},
 			{Run: "Groutine", Rules: []string{"R5b"}},
 			{Run: "R1", Scope: []string{"routine"}, Rules: []string{"R1a"}, Prefixes: []string{"routine."}},
 		},
@@ -97,9 +100,10 @@ func init() {
 			{Run: "Gkeyed", Rules: []string{"R6b", "R16"}},
 			{Run: "Gkeyed", Rules: []string{"R5b", "R12"}, Contains: []string{"AddKeyRef", "Release", "RemoveKey"}, Topics: []string{"removal"}},
 			{Run: "R1", Scope: []string{"keyed"}, Rules: []string{"R1a"}, Prefixes: []string{"keyed.Keyed", "keyed.KeyedRefCount", "keyed.runningRoutine.deferRemove"}},
+			{Run: "R1", Scope: []string{"keyed"}, Rules: []string{"R11"}},
 		},
 		Floors:      map[string]int{"R6b": 2, "R16": 2, "R12": 4, "R5b": 2},
-		Explanation: "Necessary conditions only: SetKey and SyncKeys cancel a pending delayed removal of a record they keep; the delayed-removal callback re-validates registration and the pending flag under the lock; remove() deletes at once exactly when there is no delay or the routine failed; AddKeyRef inserts and registers under one lock; Release removes the key exactly when the last reference goes and is idempotent; RemoveKey marks references released; routines/refs are accessed under their mutex." + structural,
+		Explanation: "Necessary conditions only: SetKey and SyncKeys cancel a pending delayed removal of a record they keep; the delayed-removal callback re-validates registration and the pending flag under the lock; remove() deletes at once exactly when there is no delay or the routine failed; AddKeyRef inserts and registers under one lock; Release removes the key exactly when the last reference goes and is idempotent; RemoveKey marks references released; routines/refs are accessed under their mutex. The static form of concurrent use: the fields the mechanism uses are accessed only under its lock, and every lock acquired is released on every path (R1a, R11)." + structural,
 		NotDecided:  "that the reported key set and every return value equal the reference model after every history (a statement about values over histories); timer expiry times.",
 		Assumptions: []string{A1, A3, A5},
 		Technique:   "sibling-agreement and guarded-effect rules on paths",
@@ -109,10 +113,11 @@ func init() {
 		Sels: []Sel{
 			{Run: "R3", Scope: []string{"keyed"}, Prefixes: []string{"keyed."}},
 			{Run: "Gkeyed", Rules: []string{"R4", "R5a", "R5c"}},
-			{Run: "Gkeyed", Rules: []string{"R5b", "R12"}, Contains: []string{"restart", "go-execute", "start/", "status-writes", "exit-callbacks"}},
+			{Run: "Gkeyed", Rules: []string{"R5b", "R12"}, Contains: []string{"restart", "go-execute", "start/", "status-writes", "exit-callbacks", "retry-disabled", "backoff-constructed"}},
+			{Run: "R1", Scope: []string{"keyed"}, Rules: []string{"R1a", "R11"}},
 		},
 		Floors:      map[string]int{"R3a": 2, "R3b": 6, "R3c": 1, "R3d": 1, "R4": 3, "R5c": 3, "R5b": 2},
-		Explanation: "Exit-channel chain for keyed routines (R3a-d); the cancel func of a record is called before the key is deleted, before its slot is overwritten and when the root context changes (R4); the retry timer callback restarts only a still-registered, exited record with a context, and the exit bookkeeping arms the retry exactly when the instance failed while registered with retry configured (R5b/c); no API path stops a retry timer without starting, detaching or re-arming the record (R5a)." + structural,
+		Explanation: "Exit-channel chain for keyed routines (R3a-d); the cancel func of a record is called before the key is deleted, before its slot is overwritten and when the root context changes (R4); the retry timer callback restarts only a still-registered, exited record with a context, and the exit bookkeeping arms the retry exactly when the instance failed while registered with retry configured (R5b/c); no API path stops a retry timer without starting, detaching or re-arming the record (R5a). The static form of concurrent use: the fields the mechanism uses are accessed only under its lock, and every lock acquired is released on every path (R1a, R11)." + structural,
 		NotDecided:  "retry timing (back-off values); liveness of Go timers.",
 		Assumptions: []string{A1, A3, A4, A5},
 		Technique:   "exit-channel-chain analysis + timer/cancel obligations on paths",
@@ -121,11 +126,12 @@ func init() {
 		ID: "C08", Title: "refcount: each resolved value is released exactly once, never exposed afterwards",
 		Sels: []Sel{
 			{Run: "Grefcount", Rules: []string{"R7", "R16"}},
-			{Run: "Grefcount", Rules: []string{"R12"}, Contains: []string{"SetContext"}, Topics: []string{"last-ref"}},
+			{Run: "Grefcount", Rules: []string{"R12"}, Contains: []string{"SetContext", "released#"}, Topics: []string{"last-ref"}},
 			{Run: "R1", Scope: []string{"refcount"}, Rules: []string{"R1a"}, Prefixes: []string{"refcount.RefCount"}},
+			{Run: "R1", Scope: []string{"refcount"}, Rules: []string{"R11a", "R11c"}},
 		},
 		Floors:      map[string]int{"R7": 7, "R16": 1, "R12": 2, "R1a": 8},
-		Explanation: "Release-function typestate: the resolver's release function is stored only under the current generation together with the result, or called/shown nil (a stale result is released, not stored); valueRel() is always followed by valueRel = nil in the same section and preceded by telling the reference callbacks the value is gone; the generation is bumped in the section that cancels a resolver; removeRef shuts down exactly when the last reference goes and the value is not kept; SetContext restarts exactly when the context changed; Ref.Release is idempotent; all of it under mtx." + structural,
+		Explanation: "Release-function typestate: the resolver's release function is stored only under the current generation together with the result, or called/shown nil (a stale result is released, not stored); valueRel() is always followed by valueRel = nil in the same section and preceded by telling the reference callbacks the value is gone; the generation is bumped in the section that cancels a resolver; removeRef shuts down exactly when the last reference goes and the value is not kept; SetContext restarts exactly when the context changed; Ref.Release is idempotent; all of it under mtx. The static form of concurrent use: the fields the mechanism uses are accessed only under its lock, and every lock acquired is released on every path (R1a, R11)." + structural,
 		NotDecided:  "timing ('shortly after'); that the client's release function is itself idempotent.",
 		Assumptions: []string{A1, A3, A4},
 		Technique:   "typestate rules (store/call/forget ordering, iff-guards) on paths + static lockset",
@@ -138,9 +144,10 @@ func init() {
 			{Run: "Grefcount", Rules: []string{"R12", "R7"}, Contains: []string{"released", "AddRef", "begins-with-shutdown", "generation-bump", "store-result"}},
 			{Run: "Grefcount", Rules: []string{"R4"}},
 			{Run: "R1", Scope: []string{"refcount", "ccontainer", "promise", "broadcast"}, Rules: []string{"R11"}},
+			{Run: "R1", Scope: []string{"refcount"}, Rules: []string{"R1a"}, Prefixes: []string{"refcount.RefCount"}},
 		},
 		Floors:      map[string]int{"R3a": 2, "R3c": 1, "R6a": 1, "R12": 4},
-		Explanation: "One resolver at a time: resolve waits for the previous resolver before it calls the resolver and before it closes its done channel; startResolveLocked hands over a fresh channel and the previous one (R3). released() restarts exactly when the generation is unchanged, under the lock, taken with TryLock or from a goroutine (no re-acquisition of a held lock, acyclic lock order: R11). Late references get the current value under the lock; Ref.cb is nil-tested at every call site (documented nil callback)." + structural,
+		Explanation: "One resolver at a time: resolve waits for the previous resolver before it calls the resolver and before it closes its done channel; startResolveLocked hands over a fresh channel and the previous one (R3). released() restarts exactly when the generation is unchanged, under the lock, taken with TryLock or from a goroutine (no re-acquisition of a held lock, acyclic lock order: R11). Late references get the current value under the lock; Ref.cb is nil-tested at every call site (documented nil callback). The static form of concurrent use: the fields the mechanism uses are accessed only under its lock, and every lock acquired is released on every path (R1a, R11)." + structural,
 		NotDecided:  "progress as such ('a resolver call is in progress or its result delivered' at quiescent points) — needs histories.",
 		Assumptions: []string{A1, A3, A4},
 		Technique:   "exit-channel-chain analysis + nil-guard agreement + lock-order/self-deadlock analysis",
@@ -148,15 +155,16 @@ func init() {
 	add(&Property{
 		ID: "C10", Title: "refcount: consumers get the current value, are cancelled when it is invalidated",
 		Sels: []Sel{
-			{Run: "Grefcount", Rules: []string{"R12", "R13e"}, Contains: []string{"Access", "Wait", "Resolve/", "ResolveWithReleased", "released"}},
+			{Run: "Grefcount", Rules: []string{"R12", "R13e"}, Contains: []string{"Access", "Wait", "Resolve/", "ResolveWithReleased", "released", "AddRefPromise"}},
 			{Run: "Grefcount", Rules: []string{"R7"}, Contains: []string{"begins-with-shutdown", "generation-bump"}},
 			{Run: "R2", Scope: []string{"refcount", "broadcast"}, Rules: []string{"R2a", "R2b", "R2c", "R2d"}, Prefixes: []string{"refcount."}},
 			{Run: "R2", Scope: []string{"promise", "broadcast"}, Rules: []string{"R2a", "R2b", "R2c"}, Prefixes: []string{"promise.(*PromiseContainer)"}},
 			{Run: "R17", Scope: []string{"refcount"}, Rules: []string{"R17", "R2f"}, Prefixes: []string{"refcount.(*RefCount).Access"}},
 			{Run: "R1", Scope: []string{"refcount", "promise", "broadcast", "ccontainer"}, Rules: []string{"R1b", "R1c", "R1d"}, Prefixes: []string{"refcount."}},
+			{Run: "R1", Scope: []string{"refcount"}, Rules: []string{"R1a", "R11a", "R11c"}},
 		},
 		Floors:      map[string]int{"R12": 9, "R2a": 1, "R2c": 1, "R1b": 7, "R1c": 1},
-		Explanation: "Access hands its callback the value sampled together with its subscription, cancels the callback context from a watcher when the wait channel fires (cbCancel deferred), and returns the callback's result only when a generation comparison made under the lock after the callback returned found the generation unchanged; Wait/Resolve/ResolveWithReleased release the reference only on the error path; released() re-resolves exactly when the generation is unchanged, and every restart of the resolution first drops the previous value and bumps the generation (also with no reference left: a kept value must not outlive its invalidation); the locals shared with reference callbacks are protected by the callback-field contract (Ref.cb runs under mtx)." + structural,
+		Explanation: "Access hands its callback the value sampled together with its subscription, cancels the callback context from a watcher when the wait channel fires (cbCancel deferred), and returns the callback's result only when a generation comparison made under the lock after the callback returned found the generation unchanged; Wait/Resolve/ResolveWithReleased release the reference only on the error path; released() re-resolves exactly when the generation is unchanged, and every restart of the resolution first drops the previous value and bumps the generation (also with no reference left: a kept value must not outlive its invalidation); the locals shared with reference callbacks are protected by the callback-field contract (Ref.cb runs under mtx). The static form of concurrent use: the fields the mechanism uses are accessed only under its lock, and every lock acquired is released on every path (R1a, R11)." + structural,
 		NotDecided:  "'promptly'; the sequence-of-values claim; exactly-once firing of the released callback beyond the sync.Once wiring.",
 		Assumptions: []string{A1, A3, A4},
 		Technique:   "guarded-effect + waiter-discipline analysis + static lockset of shared locals",
@@ -211,7 +219,7 @@ func init() {
 		},
 		Floors:      map[string]int{"R12": 12, "R5b": 2, "R5c": 3, "R2a": 1, "R2b": 8, "R17": 3, "R1a": 10},
 		Explanation: "A nil-returning routine is spawned again only under forceRestart, which is a constant at every call site and true only in restartRoutineLocked and the retry timer; SetContext restarts errored routines only with restart; exit status, exit callbacks and retry arming happen only for the still-current instance (r.ctx == ctx) under the lock; the retry timer is armed exactly when retry is configured, the exit failed, the record is registered and the back-off is not Stop, and success resets the back-off; the timer restarts only a registered, exited record; no API path stops a pending retry without (re)starting, detaching or re-arming. WaitExited samples the current record in its subscribing section, is woken by every status change, and returns an error-channel value only when it is an error. The exit callbacks are handed the value the routine returned (not a field read later); the status fields are accessed under the container lock only (R1a); WithRetry constructs its back-off inside the option, once per container." + structural,
-		NotDecided:  "run counts and the correspondence with a reference state machine over histories; the pointer-typed parts of WaitExited's condition (ctx, routine) in R2b; back-off values.",
+		NotDecided:  "run counts and the correspondence with a reference state machine over histories; which routine object WaitExited's condition refers to (identity; nil-ness of ctx and routine IS decided by R2b); back-off values.",
 		Assumptions: []string{A1, A2, A3, A4, A5},
 		Technique:   "guarded-effect analysis with iff-guards, who-may-pass-constant check, waiter discipline",
 	})
@@ -235,9 +243,10 @@ func init() {
 			{Run: "Gpromise", Rules: []string{"R8"}},
 			{Run: "R1", Scope: []string{"promise", "memo"}, Rules: []string{"R1a", "R1b", "R1d"}, Prefixes: []string{"promise.Once", "promise.(*Once)", "memo.", "promise.Promise."}},
 			{Run: "R17", Scope: []string{"promise"}, Rules: []string{"R17", "R2f"}, Prefixes: []string{"promise.(*Once)"}},
+			{Run: "R1", Scope: []string{"promise"}, Rules: []string{"R11a", "R11c"}},
 		},
 		Floors:      map[string]int{"R8": 9, "R1a": 1},
-		Explanation: "Once: the callback goroutine is spawned only under o.prom == nil in the section that stores the new promise; o.prom is cleared only by the callback goroutine, under the lock, the identity test and the callback's own non-nil error, after the callback returned; every path of the goroutine completes the promise; every trip around Resolve's loop tests the caller's context, which is the only source of its context.Canceled. MemoizeFunc: fn is called only by the winner of started.Swap(true) with close(done) deferred first; the other callers read the result behind <-done (R1d)." + structural,
+		Explanation: "Once: the callback goroutine is spawned only under o.prom == nil in the section that stores the new promise; o.prom is cleared only by the callback goroutine, under the lock, the identity test and the callback's own non-nil error, after the callback returned; every path of the goroutine completes the promise; every trip around Resolve's loop tests the caller's context, which is the only source of its context.Canceled. MemoizeFunc: fn is called only by the winner of started.Swap(true) with close(done) deferred first; the other callers read the result behind <-done (R1d). The static form of concurrent use: the fields the mechanism uses are accessed only under its lock, and every lock acquired is released on every path (R1a, R11)." + structural,
 		NotDecided:  "'every caller receives that call's result' as a value statement; that the callback terminates.",
 		Assumptions: []string{A3, A4},
 		Technique:   "single-flight election rules (guards with definition provenance) + publication idiom",
